@@ -51,7 +51,10 @@ package domain
 //@ # each file-system call: what a process crash right after that call leaves on disk (C02).
 //@ func (ip *indexPersist) prepare(start int) (f func() error)
 //@   pragma returned_closure
-//@   requires ip.p != nil && ip.idx != nil && 0 <= start && start <= len(ip.idx.mu.pointers) && nonnegPtrs(ip.idx.mu.pointers)
+//@   requires ip.p != nil && ip.idx != nil && 0 <= start && start <= len(ip.idx.mu.pointers)
+//@   # the closure leaves the records below `start` alone, so they must be on disk already:
+//@   # persistHead is the index's own lower bound of what is not (the closure_requires below)
+//@   requires start <= ip.idx.persistHead
 //@   modifies nothing
 //@   # assumed where the closure is called: the handle is open, the file holds whole records, and
 //@   # the records below `start` are already on disk
@@ -236,7 +239,8 @@ package domain
 //@ spec func nonnegPtrs(ptrs []pointer) bool = forall i int :: 0 <= i && i < len(ptrs) ==> ptrs[i].Start >= 0 && ptrs[i].End >= 0
 
 //@ func (f *pointerCodec) encode(start int, ptrs []pointer) (b []byte)
-//@   requires 0 <= start && start <= len(ptrs) && nonnegPtrs(ptrs)
+//@   pragma wraps int64 -> uint64 reinterpretation of the timestamps (decode reverses it)
+//@   requires 0 <= start && start <= len(ptrs)
 //@   ensures  len(b) == (len(ptrs)-start)*26
 //@   ensures  forall i int :: start <= i && i < len(ptrs) ==> encodedAt(b, (i-start)*26, ptrs[i])
 //@   modifies nothing
@@ -292,3 +296,21 @@ package domain
 //@   ensures old(w.closed) ==> err != nil
 //@   modifies w, w.idx
 //@   assert_before "f(ctx, ptr, shouldPersist)" commitPtr(w, ptr) && ptr.Start < ptr.End
+
+//@ # ---------------------------------------------------------------- time-range delete: safety and the persist protocol (C02/C04)
+//@ # Thin contract: the offset resolvers are arbitrary function values, so nothing is claimed about
+//@ # which bytes remain; what is checked is that every slice/index operation is in range, that
+//@ # validateDelete's and prepare's preconditions hold where they are called, and that the index is
+//@ # persisted from a position whose predecessors are on disk.
+//@ ignorepkg sync/atomic
+//@ func (db *DB) Delete(ctx context.Context, tr telem.TimeRange, calculateStartOffset OffsetResolver, calculateEndOffset OffsetResolver) (err error)
+//@   pragma opaque_func_values
+//@   overflow off
+//@   requires db.idx != nil && WF(db.idx.mu.pointers) && validTR(tr)
+//@   requires 0 <= db.idx.persistHead && db.idx.persistHead <= len(db.idx.mu.pointers)
+//@   requires db.idx.indexPersist != nil && db.idx.indexPersist.p != nil && db.idx.indexPersist.idx == db.idx
+//@   ensures 0 <= db.idx.persistHead && db.idx.persistHead <= len(db.idx.mu.pointers)
+//@   modifies db.idx
+//@   loop 0 invariant 0 <= startDomain && startDomain <= i && endDomain < len(db.idx.mu.pointers)
+//@   loop 0 modifies nothing
+//@   loop 1 modifies nothing
